@@ -476,6 +476,15 @@ class Specs:
             if x.kind == 'none':
                 return vbool(False)
             return vbool(z3.And(x.t != NONE, z3.Not(st.old.heap.alive(x.t)), st.heap.alive(x.t)))
+        if name == 'fresh_in_loop':
+            # allocated by an earlier iteration of the loop whose invariant this is
+            le = st.loc.get('$loop_entry')
+            if le is None:
+                raise Unsupported('fresh_in_loop() outside a loop invariant')
+            x = ex.ev1(a[0], st, fr)
+            if x.kind == 'none':
+                return vbool(False)
+            return vbool(z3.And(x.t != NONE, z3.Not(le.heap.alive(x.t)), st.heap.alive(x.t)))
         if name == 'method':
             o = ex.ev1(a[0], st, fr)
             return V(T_CLO, Clo.mk(ex.fnid(a[1].value), o.t, NONE))
